@@ -47,14 +47,18 @@ package controllers
 
 //@ const DEFAULTFG = features.DefaultMutableFeatureGate
 
-//@ func (*UpstreamClusterController).syncUpstreamCluster props C11
+// (C10) An existing cluster's state -- which includes its own server-name list, later used to decide what a delete or an
+// update may remove -- is replaced only by an object whose names have just passed the conflict pre-check: ClusterInfo.Sync
+// demands `prechecked == cluster` of this caller, and only the pre-check's ghost code sets it.
+//@ func (*UpstreamClusterController).syncUpstreamCluster props C11, C10
 //@   requires [infos_wf] forall x *clusters.ClusterInfo :: {x.featuregate} x != nil ==> xClusterWF
 //@   requires [default] (DEFAULTFG in fgalive) && fgval[DEFAULTFG] == gdefault()
 //@   modifies *
 
-//@ func (*UpstreamClusterController).checkUpstreamServerNameConflict props C11
+//@ func (*UpstreamClusterController).checkUpstreamServerNameConflict props C11, C10
 //@   requires [latest] cluster == latestobj
 //@   modifies nothing
+//@   ghost-set prechecked = (result == nil ? cluster : nil)
 //@   loop 0: invariant [t] true
 
 // The deferred cleanup of a failed bootstrap must not crash the worker: CreateClusterInfo returns a nil ClusterInfo with
